@@ -29,7 +29,7 @@ view == <<cfg, file, last, bad, Len(hist)>>
 
 Chk(label, F) == IF F THEN {} ELSE {label}
 Keep == 0 - 1       \* "no owner configured": the file keeps whatever owner it has
-LabelsC02 == {"C02_NoResidue"}
+LabelsC02 == {"C02_NoResidue", "C02_CompleteAtReturn"}
 LabelsC13 == {"C13_Mode", "C13_Owner", "C13_NeverWiderThanAsked", "C13_RewriteKeepsMode"}
 
 AllBits == {"ur", "uw", "ux", "gr", "gw", "gx", "or", "ow", "ox", "suid", "sgid", "sticky"}
@@ -52,13 +52,17 @@ Owner(t, cur, which) ==
     IF t = "account" THEN cur     \* account files are never chown'ed
     ELSE IF cfg[which][t] = Keep THEN cur ELSE cfg[which][t]
 
-(* The write as the code performs it; `seen' is what is on disk afterwards     *)
-(* (model checking: computed; trace validation: as observed).                  *)
-Write(t, data, seen) ==
+(* The write as the code performs it; `ret' is what is on disk the moment       *)
+(* write_file hands over (to its post-write hook, or to its caller), `seen'     *)
+(* what is there once the file no longer changes (model checking: computed;     *)
+(* trace validation: as observed).  The two differ when the write is still in   *)
+(* flight on tokio's blocking pool when write_file moves on.                    *)
+Write(t, data, ret, seen) ==
     LET old == file[t] IN
     /\ file' = [file EXCEPT ![t] = [seen EXCEPT !.byDaemon = (old.byDaemon \/ ~old.exists)]]
     /\ last' = [last EXCEPT ![t] = <<data>>]
     /\ bad' = Chk("C02_NoResidue", seen.exists /\ seen.runs = <<data>>)
+         \cup Chk("C02_CompleteAtReturn", ret.exists /\ ret.runs = <<data>>)
          \cup Chk("C13_Mode", ~old.exists => seen.mode = Created(t))
          \cup Chk("C13_RewriteKeepsMode", old.exists => seen.mode = old.mode)
          \cup Chk("C13_Owner", seen.uid = Owner(t, old.uid, "uid") /\ seen.gid = Owner(t, old.gid, "gid"))
@@ -75,6 +79,11 @@ Computed(t, data) ==
     [exists |-> TRUE, runs |-> NewRuns(old, data),
      mode |-> IF old.exists THEN old.mode ELSE Created(t),
      uid |-> Owner(t, old.uid, "uid"), gid |-> Owner(t, old.gid, "gid"), byDaemon |-> FALSE]
+
+(* tokio::fs::File::write_all returns once the data is handed to a blocking thread; *)
+(* without a flush the file is still empty (just truncated/created) at that point.   *)
+AtReturn(t, data) ==
+    IF "WriteNotFlushed" \in Deviations THEN [Computed(t, data) EXCEPT !.runs = <<>>] ELSE Computed(t, data)
 
 MCModes == {{"ur", "uw"}, {"ur", "uw", "gr"}, {"ur", "uw", "gr", "or"}, {"ur"}, {"ur", "uw", "gr", "gw", "or", "ow"}}
 MCUmasks == {{}, {"gw", "ow"}, {"gw", "or", "ow", "ox"}, {"gr", "gw", "gx", "or", "ow", "ox"}}
@@ -102,7 +111,7 @@ MCWrite ==
     /\ Len(hist) < MaxOps
     /\ \E t \in {cfg.type}, n \in Lens :
          LET data == [fill |-> Len(hist) + 1, len |-> n] IN
-         /\ Write(t, data, Computed(t, data))
+         /\ Write(t, data, AtReturn(t, data), Computed(t, data))
          /\ hist' = Append(hist, [type |-> t, len |-> n])
 
 MCSpec == MCInit /\ [][MCWrite]_vars
